@@ -1587,6 +1587,14 @@ def roundtrips(ctx, tag, x, ns, replay, kinds=("pickle", "evalrepr")):
             continue
         c = _culprit(x, kind, ns)
         o2, y2 = _one_trip(c, kind, ns)
+        from ufl.core.expr import Expr as _Expr
+        from ufl.form import Form as _Form
+
+        if not isinstance(c, (_Expr, _Form)) and type(c).__name__ in ("FormSum", "Action", "Adjoint", "Matrix", "ZeroBaseForm"):
+            # C13 demands round trips of EXPRESSIONS (and Form); these base-form classes are neither.
+            # Their failing pickle / eval(repr) round trips are recorded as notes, not as violations.
+            ctx.count(f"note_outside_property:{kind}-roundtrip:{type(c).__name__}:{o2.split(':')[0]}")
+            continue
         field = ""
         if y2 is not None:
             for f in _FIELDS:
@@ -1770,7 +1778,14 @@ def selftest(ctx):
     ok.append(("TLC rejects a projection row with eq ignoring a hashed attribute", res.outcome == "invariant"))
     # round trip comparison rejects an object whose repr loses information
     s = Sink()
-    roundtrips(s, "labelled", UC.Coefficient(mk_space(label="x"), 3), eval_namespace(), {}, kinds=("evalrepr",))
+    import ufl.functionspace as _fs
+
+    _orig = _fs.FunctionSpace.__repr__
+    _fs.FunctionSpace.__repr__ = lambda self: f"FunctionSpace({self._ufl_domain!r}, {self._ufl_element!r})"  # drops label
+    try:
+        roundtrips(s, "labelled", UC.Coefficient(mk_space(label="x"), 3), eval_namespace(), {}, kinds=("evalrepr",))
+    finally:
+        _fs.FunctionSpace.__repr__ = _orig
     s2 = Sink()
     roundtrips(s2, "plain", UC.Coefficient(mk_space(), 3), eval_namespace(), {}, kinds=("evalrepr", "pickle"))
     ok.append(("lossy repr rejected, faithful repr accepted", bool(s.viol) and not s2.viol))
